@@ -2,7 +2,8 @@
 # bin/runall.sh [quick|thorough] : every check once, sequentially; prints one summary line per check
 tier=${1:-quick}
 cd "$(dirname "$0")/.."
-for id in $(python3 -c "import json;print(' '.join(c['property_id'] for c in json.load(open('MANIFEST.json'))['checks']))"); do
+# RUNALL_IDS="C17 C13 ..." runs a chosen subset in the given order
+for id in ${RUNALL_IDS:-$(python3 -c "import json;print(' '.join(c['property_id'] for c in json.load(open('MANIFEST.json'))['checks']))")}; do
   s=$(date +%s)
   out=$(bin/check $id $tier 2>&1); rc=$?
   echo "$id rc=$rc $(( $(date +%s) - s ))s :: $(echo "$out" | grep -v '^KNOWN-FINDING' | tail -1 | cut -c1-160)"
